@@ -28,6 +28,8 @@ SIGS = {
     "_dSIR_effective_degree_": ("dSIR_effective_degree", "X:V t:- N:S original_shape:SHAPE tau:S gamma:S"),
     "_dSIS_individual_based_": ("dSIS_individual_based", "Y:V t:- G:G nodelist:NL index_of_node:IDX trans_rate_fxn:F2 rec_rate_fxn:F1"),
     "_dSIR_individual_based_": ("dSIR_individual_based", "V:V t:- G:G nodelist:NL index_of_node:IDX trans_rate_fxn:F2 rec_rate_fxn:F1"),
+    "_dSIS_pair_based_": ("dSIS_pair_based", "V:V t:- G:G nodelist:NL index_of_node:IDX trans_rate_fxn:F2 rec_rate_fxn:F1"),
+    "_dSIR_pair_based_": ("dSIR_pair_based", "V:V t:- G:G nodelist:NL index_of_node:IDX trans_rate_fxn:F2 rec_rate_fxn:F1"),
 }
 LEAN_PARAM = {"V": "V", "S": "Rat", "F1": "Nat → Rat", "F2": "Nat → Nat → Rat"}
 ARR_TY = {"A1": "Nat → Rat", "A2": "Nat → Nat → Rat"}
@@ -53,7 +55,7 @@ class Fn:
         for p, k in self.params:
             if k != "-":
                 self.env[p] = k
-                self.cur[p] = {"trans_rate_fxn": "tr", "rec_rate_fxn": "rr"}.get(p, p)
+                self.cur[p] = {"trans_rate_fxn": "tr", "rec_rate_fxn": "rr", "V": "Vst"}.get(p, p)
         for p, k in self.params:
             if k == "SHAPE":
                 self.meta[p] = ("rowsA", "colsB")
@@ -160,6 +162,52 @@ class Fn:
                 return f"(sum2 {r} {c} {self.cur[f.value.id]})"
         raise Unsupported(f"expression {ast.dump(e)[:90]}")
 
+    def rank(self, e):
+        """0 scalar, 1 vector-valued, 2 matrix-valued (whole-array arithmetic such as `1 - Y`, `1 - XY - XX - YX`, `XY.T`)"""
+        if isinstance(e, ast.Constant):
+            return 0
+        if isinstance(e, ast.Name):
+            return {"V": 1, "A1": 1, "A2": 2}.get(self.env.get(e.id), 0)
+        if isinstance(e, ast.UnaryOp):
+            return self.rank(e.operand)
+        if isinstance(e, ast.BinOp):
+            return max(self.rank(e.left), self.rank(e.right))
+        if isinstance(e, ast.Attribute) and e.attr == "T":
+            return self.rank(e.value)
+        return 0
+
+    def at(self, e, idx):
+        """pointwise value of a whole-array expression at the index terms `idx`"""
+        if isinstance(e, ast.Name):
+            k = self.env.get(e.id)
+            if k == "V":
+                return f"({self.cur[e.id]}.f {idx[0]})"
+            if k == "A1":
+                return f"({self.cur[e.id]} {idx[0]})"
+            if k == "A2":
+                return f"({self.cur[e.id]} {idx[0]} {idx[1]})"
+            return self.rat(e)
+        if isinstance(e, ast.Constant):
+            return self.rat(e)
+        if isinstance(e, ast.UnaryOp) and isinstance(e.op, ast.USub):
+            return f"(-{self.at(e.operand, idx)})"
+        if isinstance(e, ast.BinOp):
+            op = {ast.Add: "+", ast.Sub: "-", ast.Mult: "*", ast.Div: "/"}.get(type(e.op))
+            if op is None:
+                raise Unsupported("array operator")
+            return f"({self.at(e.left, idx)} {op} {self.at(e.right, idx)})"
+        if isinstance(e, ast.Attribute) and e.attr == "T" and self.rank(e.value) == 2:
+            return self.at(e.value, [idx[1], idx[0]])
+        raise Unsupported(f"array expression {ast.dump(e)[:80]}")
+
+    def vlen(self, e):
+        for n in ast.walk(e):
+            if isinstance(n, ast.Name) and self.env.get(n.id) == "V":
+                return f"{self.cur[n.id]}.n"
+            if isinstance(n, ast.Name) and self.env.get(n.id) == "A1" and self.meta.get(n.id):
+                return self.meta[n.id][0]
+        raise Unsupported("length of a vector expression")
+
     def sum_(self, g):
         """sum([... for i in range(n)]) / sum(( ... for nbr in G.neighbors(u)))"""
         if isinstance(g, (ast.ListComp, ast.GeneratorExp)) and len(g.generators) == 1 and not g.generators[0].ifs:
@@ -249,14 +297,18 @@ class Fn:
             if k == "V":                    # flat vector viewed as a matrix
                 if isinstance(val, ast.Name) and self.env.get(val.id) == "SHAPE":
                     r, c = self.meta[val.id]
+                elif isinstance(val, ast.Tuple) and len(val.elts) == 2:
+                    r, c = self.nat(val.elts[0]), self.nat(val.elts[1])
                 else:
-                    raise Unsupported("reshape to something else than the shape parameter")
+                    raise Unsupported("reshape to something else than a shape")
                 old = self.cur[nm]
                 line = self.bind(nm, "A2", f"fun a b => {old}.f (a * {c} + b)", ARR_TY["A2"])
                 self.meta[nm] = (r, c)
                 return [line]
             if k == "A2":                   # matrix flattened back (row-major)
                 r, c = self.meta[nm]
+                if isinstance(val, ast.Tuple) and len(val.elts) == 2 and isinstance(val.elts[1], ast.Constant) and val.elts[1].value == 1:
+                    val = val.elts[0]                      # column vector (n, 1): flattened by the final `.T[0]`
                 want = self.nat(val)
                 if want.replace("(", "").replace(")", "") != f"{r} * {c}":
                     raise Unsupported(f"flatten to {want}")
@@ -282,6 +334,10 @@ class Fn:
                 line = self.bind(nm, "A2", "fun _ _ => 0", ARR_TY["A2"])
                 self.meta[nm] = self.meta[a.id]
                 return [line]
+            if isinstance(a, ast.Tuple) and len(a.elts) == 2:
+                line = self.bind(nm, "A2", "fun _ _ => 0", ARR_TY["A2"])
+                self.meta[nm] = (self.nat(a.elts[0]), self.nat(a.elts[1]))
+                return [line]
             line = self.bind(nm, "A1", "fun _ => 0", ARR_TY["A1"])
             self.meta[nm] = (self.nat(a),)
             return [line]
@@ -296,9 +352,47 @@ class Fn:
                 return [self.bind(nm, "V", f"⟨{self.nat(hi)}, fun i => {base}.f i⟩", "V")]
             if hi is None and lo is not None:
                 return [self.bind(nm, "V", f"⟨{base}.n - {self.nat(lo)}, fun i => {base}.f ({self.nat(lo)} + i)⟩", "V")]
+            if hi is not None and lo is not None:
+                return [self.bind(nm, "V", f"⟨{self.nat(hi)} - {self.nat(lo)}, fun i => {base}.f ({self.nat(lo)} + i)⟩", "V")]
             raise Unsupported("slice form")
         if self.is_index_expr(val):
             return [self.bind(nm, "N", self.nat(val), "Nat")]
+        # np.array([a if c else b for v in X])
+        if is_np(val, "array") and len(val.args) == 1 and isinstance(val.args[0], ast.ListComp):
+            lc = val.args[0]
+            g = lc.generators[0]
+            if len(lc.generators) == 1 and not g.ifs and isinstance(g.target, ast.Name) and self.rank(g.iter) == 1 \
+                    and isinstance(lc.elt, ast.IfExp):
+                v = g.target.id
+                saved = (self.env.get(v), self.cur.get(v))
+                self.env[v], self.cur[v] = "S", self.at(g.iter, ["i"])
+                try:
+                    term = f"fun i => if {self.cond(lc.elt.test)} then {self.rat(lc.elt.body)} else {self.rat(lc.elt.orelse)}"
+                finally:
+                    if saved[0] is None:
+                        self.env.pop(v); self.cur.pop(v)
+                    else:
+                        self.env[v], self.cur[v] = saved
+                ln = self.vlen(g.iter)
+                line = self.bind(nm, "A1", term, ARR_TY["A1"])
+                self.meta[nm] = (ln,)
+                return [line]
+            raise Unsupported("list comprehension")
+        # whole-array arithmetic
+        if self.rank(val) == 1 and isinstance(val, (ast.BinOp, ast.UnaryOp)):
+            ln = self.vlen(val)
+            line = self.bind(nm, "A1", f"fun i => {self.at(val, ['i'])}", ARR_TY["A1"])
+            self.meta[nm] = (ln,)
+            return [line]
+        if self.rank(val) == 2 and isinstance(val, (ast.BinOp, ast.UnaryOp, ast.Attribute)):
+            dims = next(self.meta[n.id] for n in ast.walk(val) if isinstance(n, ast.Name) and self.env.get(n.id) == "A2")
+            line = self.bind(nm, "A2", f"fun a b => {self.at(val, ['a', 'b'])}", ARR_TY["A2"])
+            self.meta[nm] = dims
+            return [line]
+        # np.concatenate((col, col, ...), axis=0).T[0]
+        if isinstance(val, ast.Subscript) and isinstance(val.value, ast.Attribute) and val.value.attr == "T" \
+                and is_np(val.value.value, "concatenate") and isinstance(val.slice, ast.Constant) and val.slice.value == 0:
+            return [self.bind(nm, "V", self.concat(val.value.value), "V")]
         # concatenation of flat vectors / [scalar] lists, optionally wrapped in np.array(...)
         if is_np(val, "array") and len(val.args) == 1 and is_np(val.args[0], "concatenate"):
             val = val.args[0]
@@ -321,6 +415,10 @@ class Fn:
                 terms.append(self.cur[p.id])
             elif isinstance(p, ast.Name) and self.env.get(p.id) == "A1":
                 terms.append(f"(⟨{self.meta[p.id][0]}, {self.cur[p.id]}⟩ : V)")
+            elif isinstance(p, ast.Subscript) and isinstance(p.value, ast.Name) and self.env.get(p.value.id) == "A1" \
+                    and isinstance(p.slice, ast.Tuple) and len(p.slice.elts) == 2 and isinstance(p.slice.elts[0], ast.Slice) \
+                    and isinstance(p.slice.elts[1], ast.Constant) and p.slice.elts[1].value is None:
+                terms.append(f"(⟨{self.meta[p.value.id][0]}, {self.cur[p.value.id]}⟩ : V)")       # a[:, None]: column vector
             else:
                 raise Unsupported("concatenate part")
         out = terms[-1]
@@ -457,7 +555,7 @@ class Fn:
         ps = []
         for p, k in self.params:
             if k in LEAN_PARAM:
-                ps.append(f"({self.cur.get(p, p) if k in ('F1', 'F2') else p} : {LEAN_PARAM[k]})")
+                ps.append(f"({self.cur.get(p, p)} : {LEAN_PARAM[k]})")
             elif k == "SHAPE":
                 ps.append("(rowsA colsB : Nat)")
             elif k == "G":
@@ -467,12 +565,13 @@ class Fn:
         return head + "\n".join(lines) + ("\n" if lines else "") + f"  {ret}\n"
 
 
-HEADER = '''import EoNVerif.Gen.Vec
+HEADER = '''import EoNVerif.Gen.Arr
 import EoNVerif.Model.ODE2
 /-!
 GENERATED by harness/py2lean_loops.py from EoN/analytic.py — do not edit; regenerated on every check run.
 source sha1: {sha}
 -/
+set_option linter.unusedVariables false
 namespace Gen
 open ODE (sumTo sum2)
 
